@@ -11,13 +11,13 @@ import (
 	"encoding/json"
 	"fmt"
 	"reflect"
+	"runtime"
 	"sort"
 	"strconv"
 	"strings"
 	"sync"
 	"testing"
 	"time"
-	"unsafe"
 
 	relaytypes "github.com/attestantio/go-block-relay/types"
 	eth2client "github.com/attestantio/go-eth2-client"
@@ -32,7 +32,6 @@ import (
 	"github.com/spf13/viper"
 	e2types "github.com/wealdtech/go-eth2-types/v2"
 	e2wtypes "github.com/wealdtech/go-eth2-wallet-types/v2"
-	"golang.org/x/sync/semaphore"
 	"pgregory.net/rapid"
 
 	"verifharness/internal/ev"
@@ -71,14 +70,19 @@ type RestReg struct {
 // Step is a registration round (config refresh, registrations, preparations) or a
 // REST delivery.
 type Step struct {
-	Kind      string    `json:"kind"` // round | rest
-	Epoch     uint64    `json:"epoch,omitempty"`
-	Source    Source    `json:"source"`
-	RelayFail []string  `json:"relay_fail,omitempty"` // per relay: "" | 500 | 400 | drop | slow
-	SecFail   []string  `json:"sec_fail,omitempty"`   // per secondary node: "" | error | slow
-	PrepFail  []string  `json:"prep_fail,omitempty"`  // per preparation node: "" | error | notactive
-	SignFail  []int     `json:"sign_fail,omitempty"`  // per validator: 0 | 1 (every request fails) | 2 (first request fails)
-	Regs      []RestReg `json:"regs,omitempty"`
+	Kind      string   `json:"kind"` // round | rest
+	Epoch     uint64   `json:"epoch,omitempty"`
+	Source    Source   `json:"source"`
+	RelayFail []string `json:"relay_fail,omitempty"` // per relay: "" | 500 | 400 | drop | slow
+	SecFail   []string `json:"sec_fail,omitempty"`   // per secondary node: "" | error | slow
+	PrepFail  []string `json:"prep_fail,omitempty"`  // per preparation node: "" | error | notactive
+	SignFail  []int    `json:"sign_fail,omitempty"`  // per validator: 0 | 1 (every request fails) | 2 (first request fails)
+	// ProviderErr: the validating-accounts provider answers with an error during this round.
+	ProviderErr bool `json:"provider_err,omitempty"`
+	// Direct: the registrations of this round are requested through the exported
+	// SubmitValidatorRegistrations(ctx, accounts) instead of the scheduled job.
+	Direct bool      `json:"direct,omitempty"`
+	Regs   []RestReg `json:"regs,omitempty"`
 }
 
 // Case is a whole history.
@@ -379,6 +383,7 @@ func genCase(t *rapid.T) Case {
 	}
 	nSteps := rapid.IntRange(1, 7).Draw(t, "steps")
 	calm := chance(t, "calm", 6)
+	lateStart := chance(t, "lateStart", 3) // every validator still pending at start-up
 	epoch := rapid.SampledFrom([]uint64{0, 1, 5, 100}).Draw(t, "startEpoch")
 	var roundEpochs []uint64
 	for i := 0; i < nSteps; i++ {
@@ -402,7 +407,9 @@ func genCase(t *rapid.T) Case {
 		if v.Kind == "nd" {
 			v.Wallet = ndWalletName
 		}
-		if chance(t, "pending?", 3) {
+		if lateStart && len(roundEpochs) > 1 {
+			v.Activation = roundEpochs[rapid.IntRange(1, len(roundEpochs)-1).Draw(t, "lateRef")] + 1
+		} else if chance(t, "pending?", 3) {
 			v.Activation = rapid.SampledFrom(roundEpochs).Draw(t, "actRef") + rapid.SampledFrom([]uint64{0, 1, 1, 2}).Draw(t, "actOff")
 		}
 		if chance(t, "exiting?", 2) {
@@ -457,6 +464,8 @@ func genCase(t *rapid.T) Case {
 		default:
 			s.Source = Source{Kind: "malformed", Doc: rapid.IntRange(0, len(malformedDocs)-1).Draw(t, "malformed")}
 		}
+		s.ProviderErr = chance(t, "providerErr", 2)
+		s.Direct = i > 0 && !s.ProviderErr && chance(t, "direct", 3)
 		if calm {
 			continue
 		}
@@ -748,24 +757,6 @@ func signFailAt(mask []int, i int) int {
 	return 0
 }
 
-// semaphores finds every *semaphore.Weighted field of a service by type.
-func semaphores(svc any) []*semaphore.Weighted {
-	var res []*semaphore.Weighted
-	v := reflect.ValueOf(svc)
-	if v.Kind() != reflect.Pointer || v.Elem().Kind() != reflect.Struct {
-		return nil
-	}
-	v = v.Elem()
-	want := reflect.TypeOf((*semaphore.Weighted)(nil))
-	for i := 0; i < v.NumField(); i++ {
-		f := v.Field(i)
-		if f.Type() == want && !f.IsNil() {
-			res = append(res, (*semaphore.Weighted)(unsafe.Pointer(f.Pointer())))
-		}
-	}
-	return res
-}
-
 // activity is a fingerprint of everything the doubles have recorded.
 func (w *world) activity() int {
 	n := 0
@@ -855,6 +846,7 @@ func run(c *Case) (*world, error) {
 
 		clock.SetSlot(s.Epoch*slotsPerEpoch+3, time.Second)
 		w.source.set(s.Source)
+		w.provider.setFail(s.ProviderErr)
 		if relaySvc == nil {
 			// The first round is the one vouch performs at start-up: configuration is
 			// fetched inline, registrations are submitted in the background.
@@ -887,7 +879,7 @@ func run(c *Case) (*world, error) {
 			if err != nil {
 				return nil, fmt.Errorf("cannot construct block relay: %w", err)
 			}
-			if err := w.waitStartup(relaySvc); err != nil {
+			if err := w.waitStartup(); err != nil {
 				return nil, err
 			}
 			for _, j := range sched.Jobs() {
@@ -921,7 +913,14 @@ func run(c *Case) (*world, error) {
 				return nil, fmt.Errorf("cannot construct proposal preparer: %w", err)
 			}
 		} else {
-			if !sched.Fire(fetchJob) || !sched.Fire(submitJob) {
+			if !sched.Fire(fetchJob) {
+				return nil, fmt.Errorf("periodic job vanished")
+			}
+			if s.Direct && !s.ProviderErr {
+				if err := relaySvc.SubmitValidatorRegistrations(ctx, w.provider.active(s.Epoch+1)); err != nil {
+					w.notes = append(w.notes, fmt.Sprintf("step %d: SubmitValidatorRegistrations: %v", i, err))
+				}
+			} else if !sched.Fire(submitJob) {
 				return nil, fmt.Errorf("periodic job vanished")
 			}
 		}
@@ -929,7 +928,7 @@ func run(c *Case) (*world, error) {
 		if err := preparer.UpdatePreparations(ctx); err != nil {
 			w.notes = append(w.notes, fmt.Sprintf("step %d: UpdatePreparations: %v", i, err))
 		}
-		if len(w.provider.active(s.Epoch+1)) > 0 {
+		if len(w.provider.active(s.Epoch+1)) > 0 && !s.ProviderErr {
 			// The submission runs in the background; nothing in it is slow, so wait for every
 			// node to have been called, with a generous ceiling (judged afterwards either way).
 			deadline := time.Now().Add(3 * time.Second)
@@ -951,6 +950,7 @@ func run(c *Case) (*world, error) {
 			}
 		}
 	}
+	w.provider.setFail(false)
 	cancel()
 	for _, r := range w.relays {
 		r.wg.Wait()
@@ -958,41 +958,52 @@ func run(c *Case) (*world, error) {
 	return w, nil
 }
 
+// subjectPackage marks stack frames of the block relay service.
+const subjectPackage = "vouch/services/blockrelay/standard."
+
+// subjectGoroutines counts goroutines that run inside (or were started by and
+// have not yet left) the block relay service package, other than the caller.
+func subjectGoroutines() int {
+	buf := make([]byte, 1<<20)
+	for {
+		n := runtime.Stack(buf, true)
+		if n < len(buf) {
+			buf = buf[:n]
+			break
+		}
+		buf = make([]byte, 2*len(buf))
+	}
+	count := 0
+	for k, g := range strings.Split(string(buf), "\n\n") {
+		if k == 0 {
+			continue // the calling goroutine
+		}
+		if strings.Contains(g, subjectPackage) {
+			count++
+		}
+	}
+	return count
+}
+
 // waitStartup waits for the registration round that New() started in the
-// background: the round has begun once the accounts provider was asked a second
-// time (the first request is the inline configuration fetch) and is over when
-// the service's activity semaphore is free again.
-func (w *world) waitStartup(svc *blockrelay.Service) error {
-	deadline := time.Now().Add(30 * time.Second)
-	for w.provider.nCalls() < 2 {
+// background.  The round is a goroutine of the service package; it is over when
+// no goroutine other than the harness' own has a frame of (or was created by and
+// still belongs to) that package.  Nothing is assumed about what the round does
+// or which locks it holds: a round that returns early, or never releases
+// something, is simply over.
+func (w *world) waitStartup() error {
+	deadline := time.Now().Add(60 * time.Second)
+	quiet := 0
+	for quiet < 2 {
 		if time.Now().After(deadline) {
-			return fmt.Errorf("start-up registration round did not begin")
+			return fmt.Errorf("start-up registration round still running after 60 s")
 		}
-		time.Sleep(200 * time.Microsecond)
-	}
-	sems := semaphores(svc)
-	if len(sems) == 0 {
-		// No semaphore to look at (service restructured): wait until the doubles have been quiet for a while.
-		last, since := w.activity(), time.Now()
-		for time.Since(since) < 400*time.Millisecond {
-			if time.Now().After(deadline) {
-				return fmt.Errorf("start-up registration round did not settle")
-			}
-			time.Sleep(5 * time.Millisecond)
-			if a := w.activity(); a != last {
-				last, since = a, time.Now()
-			}
+		if subjectGoroutines() == 0 {
+			quiet++
+		} else {
+			quiet = 0
+			time.Sleep(300 * time.Microsecond)
 		}
-		return nil
-	}
-	for _, sem := range sems {
-		for !sem.TryAcquire(1) {
-			if time.Now().After(deadline) {
-				return fmt.Errorf("start-up registration round did not finish")
-			}
-			time.Sleep(200 * time.Microsecond)
-		}
-		sem.Release(1)
 	}
 	return nil
 }
@@ -1006,10 +1017,11 @@ func restSig(seed int, key int) [96]byte {
 	return s
 }
 
-// lastRoundBefore returns the index of the last round step before step i.
+// lastRoundBefore returns the index of the last round step before step i in which
+// vouch could learn its validators (-1 if none).
 func lastRoundBefore(c *Case, i int) int {
 	for j := i - 1; j >= 0; j-- {
-		if c.Steps[j].Kind == "round" {
+		if c.Steps[j].Kind == "round" && !c.Steps[j].ProviderErr {
 			return j
 		}
 	}
@@ -1021,7 +1033,10 @@ func lastRoundBefore(c *Case, i int) int {
 func (w *world) deliverREST(ctx context.Context, svc *blockrelay.Service, i int) error {
 	s := &w.c.Steps[i]
 	lr := lastRoundBefore(w.c, i)
-	controlled := w.provider.active(w.c.Steps[lr].Epoch + 1)
+	controlled := map[phase0.ValidatorIndex]e2wtypes.Account{}
+	if lr >= 0 {
+		controlled = w.provider.active(w.c.Steps[lr].Epoch + 1)
+	}
 	var send []RestReg
 	var wire []map[string]any
 	for _, r := range s.Regs {
@@ -1072,7 +1087,7 @@ type stats struct {
 	failMask, relayFail, secFail, prepFail, signFail                                        bool
 	reuse, multiContent, activationEdge, exitEdge, legacy, fetchFail, restForward, restDrop bool
 	unresolvableNextToOthers                                                                bool
-	restUnjudged                                                                            bool
+	providerErr, direct, earlyThenNormal                                                    bool
 	inactiveSeen, emptyRound                                                                bool
 	regsChecked                                                                             int
 }
@@ -1150,7 +1165,7 @@ func judge(c *Case, w *world) ([]verdict, stats) {
 	history := map[[2]int][]delivered{}
 	seenContents := map[[2]int][]relaySetting{}
 	var lastActive map[int]bool
-	lastRoundUnres := false
+	earlyReturnSeen := false // an earlier round had no validating accounts or no answer from the accounts provider
 
 	relayReqs := make([][]relayReq, len(w.relays))
 	for r := range w.relays {
@@ -1197,14 +1212,6 @@ func judge(c *Case, w *world) ([]verdict, stats) {
 			for _, rr := range sent {
 				o := obsReg{FR: frAddr(rr.FR), Gas: rr.Gas, Timestamp: rr.Timestamp, Pubkey: pubPool[rr.Key], Sig: restSig(rr.SigSeed, rr.Key)}
 				if rr.Key < maxValidators {
-					if lastRoundUnres {
-						// The latest round met a validator without resolvable settings; what vouch
-						// regards as controlled after such a round is not defined by the statement
-						// (and is affected by the listed finding): not judged.
-						ignore[o.Pubkey] = true
-						st.restUnjudged = true
-						continue
-					}
 					st.restDrop = true
 					continue // controlled: dropped
 				}
@@ -1274,6 +1281,16 @@ func judge(c *Case, w *world) ([]verdict, stats) {
 				st.fetchFail = true
 			}
 		}
+		if s.ProviderErr {
+			// Vouch cannot learn its validators in this round: nothing is demanded of it.
+			// Later rounds are judged as usual.
+			st.providerErr = true
+			earlyReturnSeen = true
+			continue
+		}
+		if s.Direct && i > 0 {
+			st.direct = true
+		}
 		active := map[int]bool{}
 		for v, val := range c.Validators {
 			if val.Activation <= s.Epoch+1 && s.Epoch+1 < val.Exit {
@@ -1290,7 +1307,11 @@ func judge(c *Case, w *world) ([]verdict, stats) {
 		}
 		if len(active) == 0 {
 			st.emptyRound = true
+			earlyReturnSeen = true
 		} else {
+			if earlyReturnSeen {
+				st.earlyThenNormal = true
+			}
 			lastActive = active
 		}
 		_ = lastActive
@@ -1306,9 +1327,6 @@ func judge(c *Case, w *world) ([]verdict, stats) {
 		}
 		if hasUnres && hasRes {
 			st.unresolvableNextToOthers = true
-		}
-		if len(active) > 0 {
-			lastRoundUnres = hasUnres
 		}
 		// stopped names a missing delivery: in a round in which some validator's
 		// settings cannot be resolved it gets a signature of its own.
@@ -1354,6 +1372,8 @@ func judge(c *Case, w *world) ([]verdict, stats) {
 			}
 		}
 		signFailed := map[int]bool{}
+		signFailures := map[int]int{} // failed signing requests per validator in this round
+		missingAt := map[int][]int{}  // relays that received nothing for a validator with failed requests
 		signedNow := map[int]map[[32]byte]bool{}
 		for _, rec := range signLog {
 			if rec.Step != i {
@@ -1361,6 +1381,7 @@ func judge(c *Case, w *world) ([]verdict, stats) {
 			}
 			if !rec.OK {
 				signFailed[rec.V] = true
+				signFailures[rec.V]++
 				if active[rec.V] {
 					st.signFail, st.failMask = true, true
 				}
@@ -1436,7 +1457,9 @@ func judge(c *Case, w *world) ([]verdict, stats) {
 					continue
 				}
 				switch {
-				case count[v] == 0 && !signFailed[v]:
+				case count[v] == 0 && signFailed[v]:
+					missingAt[v] = append(missingAt[v], r)
+				case count[v] == 0:
 					fail(stopped("registrations", "missing-registration"), "round at step %d (epoch %d): relay %d (mode %q) received no registration for validator %d (%s account), whose resolved settings name that relay; masks: relays %v secondary %v sign %v", i, s.Epoch, r, at(s.RelayFail, r), v, c.Validators[v].Kind, s.RelayFail, s.SecFail, s.SignFail)
 				case count[v] > 1:
 					fail("duplicate-registration", "round at step %d: relay %d received %d registrations for validator %d", i, r, count[v], v)
@@ -1445,6 +1468,13 @@ func judge(c *Case, w *world) ([]verdict, stats) {
 		}
 		if abaThisRound {
 			st.abaRounds++
+		}
+		// A failed signing request costs the registration it was made for, not the others.
+		for v, rs := range missingAt {
+			if len(rs) > signFailures[v] {
+				sort.Ints(rs)
+				fail(stopped("registrations", "missing-registration"), "round at step %d: validator %d (%s account) had %d failing signing request(s) but its registration is missing at %d relays %v; masks: relays %v sign %v", i, v, c.Validators[v].Kind, signFailures[v], len(rs), rs, s.RelayFail, s.SignFail)
+			}
 		}
 
 		// secondary beacon nodes
@@ -1574,7 +1604,7 @@ func check(t ev.TB, c *Case) {
 		t.Fatalf("harness problem: %v", err)
 	}
 	verdicts, st := judge(c, w)
-	nontrivial := st.changeRounds >= 1 || st.failMask
+	nontrivial := st.changeRounds >= 1 || st.failMask || st.earlyThenNormal
 	var labels []string
 	add := func(b bool, l string) {
 		if b {
@@ -1594,12 +1624,14 @@ func check(t ev.TB, c *Case) {
 	add(st.exitEdge, "validator-exiting-next-epoch")
 	add(st.inactiveSeen, "inactive-validator-present")
 	add(st.emptyRound, "round-without-active-validators")
+	add(st.providerErr, "round-with-accounts-provider-error")
+	add(st.earlyThenNormal, "early-return-round-followed-by-normal-round")
+	add(st.direct, "round-through-exported-SubmitValidatorRegistrations")
 	add(st.legacy, "legacy-config")
 	add(st.unresolvableNextToOthers, "unresolvable-validator-next-to-resolvable-ones")
 	add(st.fetchFail, "config-fetch-failure")
 	add(st.restForward, "rest-foreign-forwarded")
 	add(st.restDrop, "rest-controlled-dropped")
-	add(st.restUnjudged, "rest-controlled-not-judged-after-unresolvable-round")
 	add(st.rounds >= 3, "rounds>=3")
 	kindsSeen := map[string]bool{}
 	for _, v := range c.Validators {
